@@ -86,6 +86,8 @@ pub struct Prediction {
     pub ticks: u32,
     /// stream write operations performed (or attempted)
     pub io_ops: u32,
+    /// iterations of `Stmt::Storm` loops executed (the step cap of the execution allows for them)
+    pub storm_iterations: u64,
     /// ids of the tick sites in invocation order
     pub tick_ids: Vec<u32>,
     /// number of faults of the plan that fired
@@ -130,6 +132,7 @@ impl Default for Prediction {
             result: Ok(String::new()),
             ticks: 0,
             io_ops: 0,
+            storm_iterations: 0,
             tick_ids: vec![],
             fired: 0,
             error_occurred: false,
@@ -657,6 +660,21 @@ impl<'a> Model<'a> {
                 }
                 return Err(a);
             }
+            Stmt::NativeOpFail(k) => {
+                let msg = crate::simlang::NATIVE_OP_FAILS[*k as usize].1;
+                let mut a = self.throw(Thrown::Runtime(msg.into()), 0, "NativeOpFail");
+                if let Abrupt::Throw(t) = &mut a {
+                    t.crossed_opaque = true;
+                }
+                return Err(a);
+            }
+            Stmt::Storm(v, _, n) => {
+                // every iteration fails and is caught on the spot
+                f.i[*v as usize] = f.i[*v as usize].wrapping_add(*n as i64);
+                self.out.error_occurred = true;
+                self.out.sig.push("storm".into());
+                self.out.storm_iterations += *n as u64;
+            }
             Stmt::LoopTryBreak(v, id, pre, val, handler) => {
                 let r = match self.exec_block(pre, f) {
                     Ok(_) => self.eval(val, f),
@@ -748,22 +766,41 @@ impl<'a> Model<'a> {
                     (CatchKind::String, Thrown::Str(_) | Thrown::Runtime(_)) => true,
                     (CatchKind::Number, Thrown::Num(_)) => true,
                     (CatchKind::Typed(k), Thrown::Typed(k2, _)) => k == k2,
+                    (CatchKind::MapCode, Thrown::Typed(..)) => true,
+                    (CatchKind::MapCodeTyped(k), Thrown::Typed(k2, _)) => k == k2,
                     _ => false,
-                })
-                .expect("last catch accepts everything");
-            self.out.caught.push((t.id, th.class()));
-            self.out.sig.push(format!(
-                "caught:{}",
-                match t.catches[ix].kind {
-                    CatchKind::Any => "any",
-                    CatchKind::String => "string",
-                    CatchKind::Number => "number",
-                    CatchKind::Typed(_) => "typed",
+                });
+            if let Some(ix) = ix {
+                let shown = match (&t.catches[ix].kind, &th) {
+                    // the pattern binds the entry, not the thrown map
+                    (CatchKind::MapCode | CatchKind::MapCodeTyped(_), Thrown::Typed(_, c)) => c.to_string(),
+                    _ => th.class(),
+                };
+                self.out.caught.push((t.id, shown));
+                self.out.sig.push(format!(
+                    "caught:{}",
+                    match t.catches[ix].kind {
+                        CatchKind::Any => "any",
+                        CatchKind::String => "string",
+                        CatchKind::Number => "number",
+                        CatchKind::Typed(_) => "typed",
+                        CatchKind::MapCode | CatchKind::MapCodeTyped(_) | CatchKind::MapMissing => "map-pattern",
+                    }
+                ));
+                r = self.exec_block(&t.catches[ix].block, f);
+                if r.is_err() {
+                    self.out.sig.push("abrupt-from-catch".into());
                 }
-            ));
-            r = self.exec_block(&t.catches[ix].block, f);
-            if r.is_err() {
-                self.out.sig.push("abrupt-from-catch".into());
+            } else {
+                // no catch block of this try accepts the value (the last one is a map pattern):
+                // the error goes on to the next enclosing handler
+                self.out.sig.push("no-catch-accepts".into());
+                if let Err(Abrupt::Throw(info)) = &mut r {
+                    // it is thrown again from the catch argument: the original position is gone
+                    info.origin_line = 0;
+                    info.call_lines.clear();
+                    info.crossed_opaque = true;
+                }
             }
         }
         if let Some(fin) = &t.finally {
